@@ -603,10 +603,12 @@ theorem readTerm_wf {f : Fam} {t : JTerm} (h : WfTerm f.name t) :
     readTerm f.name t = .ok (f, dedup t.filters) := by
   obtain ⟨h1, h2, _, h4⟩ := wfTerm_fam h
   unfold readTerm
+  have t4 : trimB inet = inet := by decide
+  have t6 : trimB inet6 = inet6 := by decide
   cases f
-  · simp [h1, h2, Fam.name, readRanges_valid _ h4]
+  · simp [h1, h2, Fam.name, readRanges_valid _ h4, t4]
   · have : inet6 ≠ inet := inet_ne_inet6.symm
-    simp [h1, h2, Fam.name, readRanges_valid _ h4, this]
+    simp [h1, h2, Fam.name, readRanges_valid _ h4, this, t6]
 
 theorem readTerms_wf (ts : List (Str × JTerm)) (a b : Option (List Range)) (hn : (keys ts).Nodup)
     (hw : ∀ e ∈ ts, WfTerm e.1 e.2) (ha : a.isSome → inet ∉ keys ts) (hb : b.isSome → inet6 ∉ keys ts) :
